@@ -36,6 +36,7 @@ TraceNext ==
   /\ LET ev == T[ti] IN
      CASE ev.e = "Reset" -> ResetA(ev)
        [] ev.e = "Step" -> Next /\ ProjOK(ev)
+       [] ev.e = "Complete" -> Complete /\ ProjOK(ev)                  \* bintree_iterate_complete from wherever the walk stands
        [] ev.e = "FreeSub" -> FreeSubOK(ev) /\ UNCHANGED vars
        [] ev.e = "Deep" -> ev.iter = ev.n /\ ev.freed = ev.n /\ ev.ok = 1 /\ UNCHANGED vars    \* very deep chains: every node once, children first (driver tallies)
        [] OTHER -> FALSE
